@@ -7,10 +7,10 @@ from pyvc import spec as SP
 from pyvc.sym import Sym
 
 META = {
-    "explanation": "under the unit abstraction 5.1 (generic units of symbolic scale = 'any compatible unit'): each relation called with quantities returns the same physical (SI) value and the dimension of the quantity it names as the plain call in documented units; range warnings are emitted iff a temperature/pressure lies outside the documented range; Henry inverses; literature coefficients and anchor values as data obligations; the salting-out sum for any concentrations in any units; density_from_concentration returns a fixed point of the forward correlation within atol for ANY forward correlation (loop invariant, uninterpreted callback)",
+    "explanation": "under the unit abstraction 5.1 (generic units of symbolic scale = 'any compatible unit'): each relation called with quantities returns the same physical (SI) value and the dimension of the quantity it names as the plain call in documented units; range warnings are emitted iff a temperature/pressure lies outside the documented range; Henry inverses; literature coefficients and anchor values as data obligations; the salting-out sum for any concentrations in any units; density_from_concentration returns a fixed point of the forward correlation within atol for ANY forward correlation (loop invariant, uninterpreted callback); the reference viscosity eta20 in any unit scales the published ratio (anchor eta(20 degC) = eta20); inputs in their documented positions; a grid of temperatures (x pressures) handed over as one array is evaluated element by element and warns iff some element lies outside",
     "trusted_base": ["assumed contract 5.1 (pyvc/qmodel.py) for the `quantities` package, validated against the real package in C09", "assumed contract 5.3 (exp/log as real functions)",
                      "published coefficients/anchors typed into this file from Tanaka 2001, Korson 1969, Holz 2000, Bradley-Pitzer 1979; handbook densities of sulfuric acid (Int. Crit. Tables / Perry) and Sechenov constants of oxygen (Davis et al. 1967)"],
-    "not_decided": ["fidelity of the correlations to nature beyond the published anchors", "temperatures in scaled units (outside the property's quantifier; the code supports kelvin only)",
+    "not_decided": ["fidelity of the correlations to nature beyond the published anchors", "temperatures in scaled units (outside the property's quantifier; the code supports kelvin only)", "water_viscosity with a units object AND an array of temperatures (refused on the pinned tree: 10 ** quantity array)",
                     "sulfuric_acid_density itself symbolically (float() of the temperature and numpy arrays inside: data obligations here, bounded stand-in); the coefficient table of Myhre 1998 and the parameter tables of Schumpe 1993 are not typed in from the papers (not at hand): handbook / measured anchors only",
                     "density_from_concentration is proved for an arbitrary forward correlation without units and with a units object and inputs in mol/dm3, g/mol, g/cm3 (generic units: stand-in); that it RETURNS is shown for a constant correlation and, as data, for sulfuric_acid_density up to w = 0.6"],
     "assumptions": ["temperatures are quantified in kelvin (the documented unit)"],
@@ -364,8 +364,42 @@ def _(v):
             v.prove("warned_iff_outside_0_to_40_above_T0", _warned(v) == (bool(warn) and (t < 0 or t > 40)))
 
 
+@harness("C19", "water_viscosity.reference_viscosity", functions=["chempy.properties.water_viscosity_korson_1969:water_viscosity"], div_mode="assume", samples=40)
+def _(v):
+    """'reproduce their published anchor values' and 'the same physical value whether its inputs are plain numbers in the documented units or
+    quantities expressed in any compatible units', for the second documented parameter of the viscosity correlation, eta20 (the viscosity at
+    20 degC): Korson's equation (5) gives the RATIO eta(T)/eta(20 degC), so the value is eta20 times the published ratio for every reference
+    viscosity in whatever unit it is written (cP, Pa s, any number), at 20 degC it is eta20 itself, and the range warning depends on the
+    temperature alone.  eta20 is given in its documented (second) position here and by name in the last obligation: both are the same call"""
+    from chempy.properties.water_viscosity_korson_1969 import water_viscosity as fn
+    T = v.real("T", lo=250, hi=400)
+    eta20 = v.real("eta20", lo=1e-4, hi=10)
+    if not v.symbolic:
+        T = v.choice("T_edge", [T, 273.15, 373.15, 273.14, 373.16, 293.15])
+        eta20 = v.choice("eta20_choice", [eta20, 1.0020e-3, 1.0])         # Pa s; 'relative to the value at 20 degC'
+    warn = v.bool("warn")
+    ratio = korson(T, v) / F(1.0020)
+    r = v.call(fn, T, eta20, warn=warn)
+    v.prove_identity("value_is_eta20_times_the_published_ratio", r, eta20 * ratio, rel=1e-9)
+    outside = SP.disj([T < 273.15, T > 373.15])
+    v.prove("warned_iff_temperature_outside_range_and_enabled", SP.iff(_warned(v), SP.conj([warn, outside])))
+    n = len(_range_warnings(v))
+    v.prove_identity("anchor_at_20C_is_eta20", v.call(fn, F(293.15), eta20), eta20, rel=1e-12)
+    v.prove("anchor_is_inside_the_range", len(_range_warnings(v)) == n)
+    u, table = units_env(v)
+    if v.symbolic:
+        vu = table.generic("vu", (-1, 1, -1, 0, 0, 0, 0))        # any viscosity unit
+        withu = v.call(fn, T * u.K, (eta20 / table.scale["vu"]) * vu, u, False)
+        v.prove("with_units.dimension_is_viscosity", dimv(withu) == (-1, 1, -1, 0, 0, 0, 0))
+        v.prove_identity("with_units.same_physical_value_any_viscosity_unit", si(v, withu), eta20 * ratio)
+    else:
+        withu = v.call(fn, T * u.K, (eta20 * 10) * u.gram / u.cm / u.second, u, False)      # eta20 Pa s written in g/(cm s) ('g vs kg')
+        v.prove("with_units.same_physical_value_any_viscosity_unit", v.eq(si(v, withu, u.pascal * u.second), float(eta20) * float(ratio), rel=1e-9))
+    v.prove_identity("by_name_is_the_same_call", v.call(fn, T, eta20=eta20, warn=False), r, rel=1e-12)
+
+
 # ---------------------------------------------------------------------------- salting-out of gases (Schumpe 1993)
-@harness("C19", "lg_solubility_ratio", functions=["chempy.properties.gas_sol_electrolytes_schumpe_1993:lg_solubility_ratio"], div_mode="assume", samples=25)
+@harness("C19", "lg_solubility_ratio",functions=["chempy.properties.gas_sol_electrolytes_schumpe_1993:lg_solubility_ratio"], div_mode="assume", samples=25)
 def _(v):
     """'salting-out of gases': lg(c0/c) = sum_i (h_gas + h_ion_i) c_i for every set of concentrations; with units each concentration may be in
     its own compatible unit and the result is the same pure number; the fluoride warning is emitted iff fluoride is among the electrolytes
@@ -697,3 +731,181 @@ def _(v):
                 continue
         rising = [(round(float(Ts[i] - 273.15)), round(rho[i], 1), round(rho[i + 1], 1)) for i in range(len(rho) - 1) if not rho[i + 1] < rho[i]]
         v.prove("falls_with_temperature.w_%02d" % round(w * 10), not rising, detail=repr(rising[:3]))
+
+
+# ---------------------------------------------------------------------------- documented positions of the inputs; grids of temperatures as arrays
+def _tanaka_f(t):
+    """Tanaka 2001 eq. (1), t in degC -> kg/m3 (floats; the constants as in `tanaka` above)"""
+    return 999.974950 * (1 - ((t - 3.983035) ** 2 * (t + 301.797)) / (522528.9 * (t + 69.34881)))
+
+
+def _korson_ratio_f(t):
+    """Korson 1969 eq. (5), t in degC -> eta(t)/eta(20 degC)"""
+    return 10 ** ((1.1709 * (20 - t) - 0.001827 * (t - 20) ** 2) / (t + 89.93))
+
+
+def _holz_f(T):
+    """Holz 2000 eq. (1), T in K -> m2/s"""
+    return 1.635e-8 * (T / 215.05 - 1) ** 2.063
+
+
+def _bradley_pitzer_f(T, P):
+    """Bradley & Pitzer 1979 eqs. (1)-(4), T in K, P in bar -> relative permittivity (U1..U9 as in coefficients_and_anchors.bradley_pitzer_U)"""
+    U1, U2, U3, U4, U5, U6, U7, U8, U9 = 3.4279e2, -5.0866e-3, 9.4690e-7, -2.0525, 3.1159e3, -1.8289e2, -8.0325e3, 4.2142e6, 2.1417
+    B = U7 + U8 / T + U9 * T
+    C = U4 + U5 / (U6 + T)
+    return U1 * math.exp(U2 * T + U3 * T * T) + C * math.log((B + P) / (B + 1000))
+
+
+def _observe(thunk):
+    """(value or None, text of the exception or None, range warnings) of one call of the code under test"""
+    import warnings
+    with warnings.catch_warnings(record=True) as ws:
+        warnings.simplefilter("always")
+        try:
+            val, exc = thunk(), None
+        except Exception as ex:
+            val, exc = None, repr(ex)[:160]
+    return val, exc, [str(x.message) for x in ws if " encountered in " not in str(x.message)]
+
+
+@harness("C19", "documented_positions", functions=["chempy.properties.water_density_tanaka_2001:water_density", "chempy.properties.water_viscosity_korson_1969:water_viscosity",
+                                                   "chempy.properties.water_diffusivity_holz_2000:water_self_diffusion_coefficient",
+                                                   "chempy.properties.water_permittivity_bradley_pitzer_1979:water_permittivity",
+                                                   "chempy.properties.sulfuric_acid_density_myhre_1998:sulfuric_acid_density", "chempy.henry:Henry_H_at_T"], kind="data")
+def _(v):
+    """'whether its inputs are plain numbers in the documented units or quantities expressed in any compatible units': the inputs in the ORDER in
+    which each relation documents them (temperature first -- mass fraction first for the acid --, then the second physical input: T0 / eta20 / P,
+    then the units object), without naming them.  Every call below lies inside the validity range: the hand-computed value of the published
+    equation, in SI where a units object is given, and no range warning.  (nernst_potential, electrical_mobility_from_D, lg_solubility_ratio and
+    density_from_concentration are called by position in their own harnesses.)"""
+    from chempy.properties.water_density_tanaka_2001 import water_density
+    from chempy.properties.water_viscosity_korson_1969 import water_viscosity
+    from chempy.properties.water_diffusivity_holz_2000 import water_self_diffusion_coefficient
+    from chempy.properties.water_permittivity_bradley_pitzer_1979 import water_permittivity
+    from chempy.properties.sulfuric_acid_density_myhre_1998 import sulfuric_acid_density
+    from chempy.henry import Henry_H_at_T
+    from chempy.units import default_units as u, to_unitless
+    kgm3, Pas = u.kg / u.m ** 3, u.pascal * u.second
+    H25 = 1.2e-3 * math.exp(1800.0 * (1 / 310.0 - 1 / 288.15))      # van 't Hoff with the reference temperature 288.15 K
+    cases = [
+        # temperature in degC with T0 = 0 (the documented use of T0), and in kelvin with T0 and units
+        ("water_density.T_T0", lambda: water_density(4.0, 0.0), None, _tanaka_f(4.0), 1e-12),
+        ("water_density.T_T0_units", lambda: water_density(283.15 * u.K, 273.15 * u.K, u), kgm3, _tanaka_f(10.0), 1e-12),
+        # reference viscosity in Pa s / as the pure number 1 ('relative viscosity') / in poise with units; units alone in the third position
+        ("water_viscosity.T_eta20_in_Pa_s", lambda: water_viscosity(298.15, 1.0020e-3), None, 1.0020e-3 * _korson_ratio_f(25.0), 1e-12),
+        ("water_viscosity.T_eta20_relative", lambda: water_viscosity(283.15, 1.0), None, _korson_ratio_f(10.0), 1e-12),
+        ("water_viscosity.T_eta20_units", lambda: water_viscosity(298.15 * u.K, 1.0020e-2 * u.poise, u), Pas, 1.0020e-3 * _korson_ratio_f(25.0), 1e-9),
+        ("water_viscosity.T_none_units", lambda: water_viscosity(298.15 * u.K, None, u), Pas, 1.0020e-3 * _korson_ratio_f(25.0), 1e-9),
+        ("water_self_diffusion_coefficient.T_units", lambda: water_self_diffusion_coefficient(298.15 * u.K, u), u.m ** 2 / u.s, _holz_f(298.15), 1e-9),
+        ("water_permittivity.T_P", lambda: water_permittivity(323.15, 100.0), None, _bradley_pitzer_f(323.15, 100.0), 1e-12),
+        ("water_permittivity.T_P_units", lambda: water_permittivity(323.15 * u.K, 100e5 * u.pascal, u), 1, _bradley_pitzer_f(323.15, 100.0), 1e-9),
+        # the acid: handbook density of 50 % acid at 20 degC, 1395.1 kg/m3 (3e-3 as in sulfuric_acid_density.handbook_density_at_20_C)
+        ("sulfuric_acid_density.w_T", lambda: sulfuric_acid_density(0.5, 293.15), None, 1395.1, 3e-3),
+        ("sulfuric_acid_density.w_T_T0", lambda: sulfuric_acid_density(0.5, 20.0, 0.0), None, 1395.1, 3e-3),
+        ("sulfuric_acid_density.w_T_T0_units", lambda: sulfuric_acid_density(0.5, 293.15 * u.K, 273.15 * u.K, u), kgm3, 1395.1, 3e-3),
+        ("Henry_H_at_T.T_H_Tderiv_T0", lambda: Henry_H_at_T(310.0, 1.2e-3, 1800.0, 288.15), None, H25, 1e-12),
+        ("Henry_H_at_T.T_H_Tderiv_T0_units", lambda: Henry_H_at_T(310.0 * u.K, 1.2e-3 * u.molar / u.atm, 1800.0 * u.K, 288.15 * u.K, u), u.molar / u.atm, H25, 1e-9),
+    ]
+    got = {}
+    for name, thunk, unit, want, rel in cases:
+        val, exc, ws = _observe(thunk)
+        if exc is None:
+            try:
+                got[name] = x = float(val) if unit is None else float(to_unitless(val, unit))
+                ok, det = abs(x / want - 1) < rel and not ws, repr((x, want, ws[:2]))
+            except Exception as ex:
+                ok, det = False, repr(ex)[:160]
+        else:
+            ok, det = False, exc
+        v.prove(name, ok, detail=det)
+    # degC with T0 = 0 and kelvin with the default T0 are the same temperature: the same density (the handbook band above is wide)
+    a, b, c = (got.get("sulfuric_acid_density." + k) for k in ("w_T", "w_T_T0", "w_T_T0_units"))
+    v.prove("sulfuric_acid_density.T0_shifts_the_temperature_only", None not in (a, b, c) and abs(b / a - 1) < 1e-12 and abs(c / a - 1) < 1e-12, detail=repr((a, b, c)))
+
+
+@harness("C19", "temperature_grids", functions=["chempy.properties.water_density_tanaka_2001:water_density", "chempy.properties.water_viscosity_korson_1969:water_viscosity",
+                                                "chempy.properties.water_diffusivity_holz_2000:water_self_diffusion_coefficient",
+                                                "chempy.properties.water_permittivity_bradley_pitzer_1979:water_permittivity", "chempy.henry:Henry_H_at_T",
+                                                "chempy.einstein_smoluchowski:electrical_mobility_from_D"], kind="data")
+def _(v):
+    """the quantifier 'for all temperatures/pressures/compositions on dense grids over each validity range and just outside it', with the grid handed
+    over as ONE array (a row of temperatures, a runs x times matrix, a column, a 0-d array, a temperature x pressure mesh): every element of
+    the answer is the value of the published equation at that element (the same as the scalar call), with and without a units object, the answer
+    has the shape of the grid, and 'a range warning is emitted when a temperature lies outside the documented validity range and never when all
+    inputs lie inside it' reads: iff SOME element lies outside (and warnings are asked for).  Grids keep 0.5 K away from the range limits inside
+    and go 1 K beyond outside.  Not stated: water_viscosity with a units object and an array (refused on the pinned tree: 10 ** quantity array);
+    pressures beyond their limit on a mesh (the pairing of 'any T' with 'any P', see water_permittivity.range_warning)"""
+    import numpy as np
+    from chempy.properties.water_density_tanaka_2001 import water_density
+    from chempy.properties.water_viscosity_korson_1969 import water_viscosity
+    from chempy.properties.water_diffusivity_holz_2000 import water_self_diffusion_coefficient
+    from chempy.properties.water_permittivity_bradley_pitzer_1979 import water_permittivity
+    from chempy.henry import Henry_H_at_T
+    from chempy.einstein_smoluchowski import electrical_mobility_from_D
+    from chempy.units import default_units as u, to_unitless
+
+    def check(name, thunk, want, expect_warning, unit=None):
+        val, exc, ws = _observe(thunk)
+        if exc is not None:
+            return v.prove(name, False, detail=exc)
+        try:
+            arr = np.asarray(val if unit is None else to_unitless(val, unit), dtype=float)
+            ok = arr.shape == np.shape(want) and bool(np.allclose(arr, want, rtol=1e-9, atol=0)) and bool(ws) == expect_warning
+            det = "shape %r (grid %r), warnings %r, %s expected" % (arr.shape, np.shape(want), ws[:2], "one" if expect_warning else "none")
+        except Exception as ex:
+            ok, det = False, repr(ex)[:160]
+        v.prove(name, ok, detail=det)
+
+    def elementwise(f, *grids):
+        return np.vectorize(lambda *xs: f(*(float(x) for x in xs)), otypes=[float])(*grids)
+
+    one_argument = [   # name, function, validity range in K, scalar equation, unit of the answer, with a units object too
+        ("water_density", water_density, 273.15, 313.15, lambda T: _tanaka_f(T - 273.15), lambda: u.kg / u.m ** 3, True),
+        ("water_viscosity", water_viscosity, 273.15, 373.15, lambda T: 1.0020 * _korson_ratio_f(T - 273.15), None, False),
+        ("water_self_diffusion_coefficient", water_self_diffusion_coefficient, 273.15, 373.15, _holz_f, lambda: u.m ** 2 / u.s, True),
+    ]
+    for name, fn, lo, hi, eq, unit, with_units in one_argument:
+        row = np.linspace(lo + 0.5, hi - 0.5, 12)
+        shapes = [("row", row), ("matrix", row.reshape(3, 4)), ("column", row.reshape(12, 1)), ("zero_d", np.array(lo + 7.0))]
+        for sname, T in shapes:
+            check("%s.%s.inside" % (name, sname), lambda: fn(T), elementwise(eq, T), False)
+            if with_units:
+                check("%s.%s.inside_with_units" % (name, sname), lambda: fn(T * u.K, units=u), elementwise(eq, T), False, unit())
+        for sname, T in shapes[:3]:
+            for where, idx, x in (("above", -1, hi + 1.0), ("below", 0, lo - 1.0)):
+                Tout = T.copy()
+                Tout.flat[idx if idx == 0 else T.size // 2 + 1] = x       # a single element, first or in the middle of the grid
+                check("%s.%s.one_element_%s" % (name, sname, where), lambda: fn(Tout), elementwise(eq, Tout), True)
+                check("%s.%s.one_element_%s.warnings_off" % (name, sname, where), lambda: fn(Tout, warn=False), elementwise(eq, Tout), False)
+                if with_units:
+                    check("%s.%s.one_element_%s.with_units" % (name, sname, where), lambda: fn(Tout * u.K, units=u), elementwise(eq, Tout), True, unit())
+
+    # permittivity: temperature x pressure, 0..350 degC and up to 1000 bar (inside for every temperature)
+    Ts, Ps = np.linspace(273.65, 622.65, 8), np.array([1.0, 10.0, 100.0, 1000.0])
+    TT, PP = np.meshgrid(Ts, Ps, indexing="ij")
+    want = elementwise(_bradley_pitzer_f, TT, PP)
+    check("water_permittivity.broadcast.inside", lambda: water_permittivity(Ts[:, None], Ps[None, :]), want, False)
+    check("water_permittivity.mesh.inside", lambda: water_permittivity(TT, PP), want, False)
+    check("water_permittivity.mesh.inside_with_units", lambda: water_permittivity(TT * u.K, PP * 1e5 * u.pascal, units=u), want, False, 1)
+    check("water_permittivity.mesh_of_temperatures_one_pressure", lambda: water_permittivity(TT, 100.0), elementwise(_bradley_pitzer_f, TT, 100.0), False)
+    check("water_permittivity.row_with_units_one_pressure", lambda: water_permittivity(Ts * u.K, 100 * u.bar, units=u), elementwise(_bradley_pitzer_f, Ts, 100.0), False, 1)
+    for where, idx, x in (("above", TT.size // 2 + 1, 624.15), ("below", 0, 272.15)):
+        Tout = TT.copy()
+        Tout.flat[idx] = x
+        wout = elementwise(_bradley_pitzer_f, Tout, PP)
+        check("water_permittivity.mesh.one_temperature_%s" % where, lambda: water_permittivity(Tout, PP), wout, True)
+        check("water_permittivity.mesh.one_temperature_%s.warnings_off" % where, lambda: water_permittivity(Tout, PP, warn=False), wout, False)
+        check("water_permittivity.mesh.one_temperature_%s.with_units" % where, lambda: water_permittivity(Tout * u.K, PP * 1e5 * u.pascal, units=u), wout, True, 1)
+    Phot = PP.copy()
+    Phot[-1, -1] = 2500.0                                          # 349.5 degC and 2500 bar in the same element: beyond 2000 bar above 70 degC
+    check("water_permittivity.mesh.one_hot_element_above_2000bar", lambda: water_permittivity(TT, Phot), elementwise(_bradley_pitzer_f, TT, Phot), True)
+
+    # the closed-form relations have no range; a matrix of temperatures gives the matrix of values
+    Tm = np.linspace(278.15, 318.15, 6).reshape(2, 3)
+    wantH = elementwise(lambda T: 1.2e-3 * math.exp(1800.0 * (1 / T - 1 / 298.15)), Tm)
+    check("Henry_H_at_T.matrix", lambda: Henry_H_at_T(Tm, 1.2e-3, 1800.0), wantH, False)
+    check("Henry_H_at_T.matrix_with_units", lambda: Henry_H_at_T(Tm * u.K, 1.2e-3 * u.molar / u.atm, 1800.0 * u.K, units=u), wantH, False, u.molar / u.atm)
+    wantM = elementwise(lambda T: 2.3e-9 * 1.60217662e-19 / (1.38064852e-23 * T), Tm)
+    check("electrical_mobility_from_D.matrix", lambda: electrical_mobility_from_D(2.3e-9, 1, Tm), wantM, False)
+    check("electrical_mobility_from_D.matrix_with_units", lambda: electrical_mobility_from_D(2.3e-5 * u.cm ** 2 / u.s, 1, Tm * u.K, None, u), wantM, False, u.m ** 2 / u.volt / u.s)
